@@ -529,7 +529,14 @@ def execute(spec, fault, bump):
                 seams.patch(acal, "_calculate_objective", obj_wrapper)
                 kwargs = {"maxiters": spec["maxiters"], "randseed": spec["randseed"]}
                 if spec["entry"] == "Project.calibrate":
-                    result = P.calibrate(parset=parset, adjustables=list(adjustables), measurables=list(measurables), max_time=spec["max_time"], **kwargs)
+                    same_bounds = len({(a[2], a[3]) for a in adjustables}) == 1 and all(a[1] is None for a in adjustables)
+                    if same_bounds:
+                        # the documented short form: plain names + default scale limits (expanded to every population)
+                        result = P.calibrate(parset=parset, adjustables=[a[0] for a in adjustables], measurables=list(measurables), max_time=spec["max_time"], default_min_scale=adjustables[0][2], default_max_scale=adjustables[0][3], **kwargs)
+                        if fault is None:
+                            bump("probe:adjustables_given_as_names")
+                    else:
+                        result = P.calibrate(parset=parset, adjustables=list(adjustables), measurables=list(measurables), max_time=spec["max_time"], **kwargs)
                 else:
                     adj = [(a[0], a[1], a[2], a[3]) for a in adjustables]
                     result = acal.calibrate(P, parset, adj, list(measurables), max_time=spec["max_time"], **kwargs)
@@ -792,6 +799,18 @@ def execute(spec, fault, bump):
                 v0 = start_par.meta_y_factor if pn == "all" else start_par.y_factor[pn]
                 if not (lo - 1e-12 <= v <= hi + 1e-12) and v != v0:
                     violate("adjusted_value_out_of_bounds", "calibrate", {"par": par_name, "pop": pn, "value": v, "bounds": [lo, hi]})
+        # the returned parset carries the best evaluated point (not the last one, not a mixture)
+        ret = []
+        for par_name, pop, lo, hi in [tuple(a) for a in spec["adjustables"]]:
+            if par_name in new.pars:
+                par = new.pars[par_name]
+                ret += [par.meta_y_factor] if pop == "all" else ([par.y_factor[pop]] if pop is not None else list(par.y_factor.values()))
+            else:
+                tn, src = par_name.split("_from_")
+                ret.append(new.transfers[tn][src].y_factor[pop])
+        fmin = min(h[1] for h in hist)
+        if math.isfinite(fmin) and not any(h[1] == fmin and len(h[0]) == len(ret) and all(abs(a - b) <= 1e-12 * max(1, abs(a)) for a, b in zip(h[0], ret)) for h in hist):
+            violate("returned_point_is_not_the_best_evaluated", "calibrate", {"returned": ret, "best_value": fmin, "history": hist[:8]})
         # independent re-evaluation: no worse than the start
         with _unpatched_process(amodel, None):
             end = min(P.data.tvec[-1], P.settings.sim_end)
